@@ -5,6 +5,8 @@ Driver for C08. Case lines (DESIGN.md §2.9):
 
   <id> R <facts> <prog> <patterns> => <log> <status> <size> <recd>
       one request through a router with the counting recorder
+  <id> AW <n> (<facts> <prog> <method>)^n <patterns> => <spansStarted> <spansEnded> <active> <requests_total> <served>
+      the same through a real HTTP server; some clients abort while the handler runs (quiescence only)
   <id> A <n> (<facts> <prog> <method>)^n <patterns> => <spansStarted> <spansEnded> <active> <n> (<span name> <span status> <metric route> <metric status> <client status> <client size> <metric size>)^n
       a history of requests through an app with the real recorder (tracetest.SpanRecorder + ManualReader)
 
@@ -144,10 +146,10 @@ def stepA (id : String) (inp obs : List String) : String :=
     let outs := reqs.map fun (f, p, m) => (f, m, serve f p)
     let tele := outs.foldl (fun t (_, _, o) => t.run o.log) ({} : Tele)
     let liveOuts := outs.filter fun (f, _, _) => f.obs && f.live
-    -- app/observability.go renames the span only when the label is non-empty (the empty pattern `GET ""`
-    -- keeps the start name METHOD + " " + path)
-    let expect : List SpanObs := liveOuts.filterMap fun (f, m, o) =>
-      (modelLabel o).map fun l => ⟨m ++ " ".toList ++ (if l = [] then f.path else l), errOf o.status, o.status, o.size⟩
+    -- app/observability.go names the span METHOD + " " + label; an empty label (the empty pattern `GET ""`) becomes
+    -- the `_unmatched` sentinel, as for the metrics (before /repo fix K08b the span kept METHOD + raw path)
+    let expect : List SpanObs := liveOuts.filterMap fun (_, m, o) =>
+      (modelLabel o).map fun l => ⟨m ++ " ".toList ++ routeAttr l, errOf o.status, o.status, o.size⟩
     let expectRows : List Row := liveOuts.foldl (fun rows (_, _, o) =>
       match modelLabel o with
       | some l => addRow rows (routeAttr l) o.status o.size
@@ -158,9 +160,7 @@ def stepA (id : String) (inp obs : List String) : String :=
     let allLabels := pats ++ sentinels
     let s := h.started == h.ended && h.active == 0 && h.spans.length == liveOuts.length &&
       h.spans.all (fun sp => sp.err == errOf sp.clientStatus &&
-        ((reqs.map fun (_, _, m) => m).any fun m => (allLabels.any fun l => sp.name == m ++ " ".toList ++ l) ||
-          -- a registered empty pattern only ever matches the root path, whose canonical pattern is "/"
-          (pats.contains [] && sp.name == m ++ " /".toList))) &&
+        ((reqs.map fun (_, _, m) => m).any fun m => (allLabels.filter (· != [])).any fun l => sp.name == m ++ " ".toList ++ l)) &&
       h.rows.all (fun r => labelOK pats r.route) &&
       (h.rows.foldl (fun n r => n + r.count) 0) == liveOuts.length &&
       (h.rows.foldl (fun n r => n + r.size) 0) == (h.spans.foldl (fun n sp => n + sp.clientSize) 0) &&
@@ -192,8 +192,8 @@ def stepAC (id : String) (inp obs : List String) : String :=
     let outs := reqs.map fun (f, p, m) => (f, m, serve f p)
     let tele := outs.foldl (fun t (_, _, o) => t.run o.log) ({} : Tele)
     let liveOuts := outs.filter fun (f, _, _) => f.obs && f.live
-    let expect : List (Bytes × Nat) := liveOuts.filterMap fun (f, m, o) =>
-      (modelLabel o).map fun l => (m ++ " ".toList ++ (if l = [] then f.path else l), errOf o.status)
+    let expect : List (Bytes × Nat) := liveOuts.filterMap fun (_, m, o) =>
+      (modelLabel o).map fun l => (m ++ " ".toList ++ routeAttr l, errOf o.status)
     let expectRows : List Row := liveOuts.foldl (fun rows (_, _, o) =>
       match modelLabel o with
       | some l => addRow rows (routeAttr l) o.status o.size
@@ -204,8 +204,7 @@ def stepAC (id : String) (inp obs : List String) : String :=
     let allLabels := pats ++ sentinels
     let s := started == ended && active == 0 && spans.length == liveOuts.length &&
       spans.all (fun sp =>
-        ((reqs.map fun (_, _, m) => m).any fun m => (allLabels.any fun l => sp.1 == m ++ " ".toList ++ l) ||
-          (pats.contains [] && sp.1 == m ++ " /".toList))) &&
+        ((reqs.map fun (_, _, m) => m).any fun m => (allLabels.filter (· != [])).any fun l => sp.1 == m ++ " ".toList ++ l)) &&
       -- the error statuses of the spans are the error statuses the clients received
       sameBag ((spans.map (·.2)).filter (· != 0)) ((clients.map fun c => errOf c.1).filter (· != 0)) &&
       rows.all (fun r => labelOK pats r.route) &&
@@ -214,6 +213,25 @@ def stepAC (id : String) (inp obs : List String) : String :=
       (rows.map (·.status)).eraseDups.all (fun st =>
         ((rows.filter (·.status == st)).foldl (fun n r => n + r.count) 0) == (clients.filter (·.1 == st)).length)
     verdict id mi s "-" s!"{tele.started} {tele.ended} {tele.active} {expect.length} {expectRows.length}"
+  | _, _ => s!"{id} bad-case"
+
+/-! history through a real server with clients that abort mid-flight, real app recorder: at quiescence -/
+
+def stepAW (id : String) (inp obs : List String) : String :=
+  match runP (do
+      let reqs ← list (do let f ← pFacts; let p ← pProg; let m ← str; pure (f, p, m))
+      let pats ← list str
+      pure (reqs, pats)) inp,
+    runP (do let st ← nat; let en ← nat; let ac ← int; let tot ← nat; let served ← nat; pure (st, en, ac, tot, served)) obs with
+  | some (reqs, _), some (started, ended, active, total, served) =>
+    let outs := reqs.map fun (f, p, _) => (f, serve f p)
+    let tele := outs.foldl (fun t (_, o) => t.run o.log) ({} : Tele)
+    let live := (outs.filter fun (f, _) => f.obs && f.live).length
+    let mi := tele.started == started && tele.ended == ended && tele.active == active && total == live && served == reqs.length
+    -- oracle: every request reached the server, the gauge is back at zero, every started span ended, and every request
+    -- the recorder did not exclude is in the totals — whether or not its client was still there
+    let s := served == reqs.length && started == ended && active == 0 && started == live && total == live
+    verdict id mi s "-" s!"{tele.started} {tele.ended} {tele.active} {live}"
   | _, _ => s!"{id} bad-case"
 
 def step (line : String) : String :=
@@ -227,6 +245,7 @@ def step (line : String) : String :=
     | "R" :: rest => stepR id rest obs
     | "A" :: rest => stepA id rest obs
     | "AC" :: rest => stepAC id rest obs
+    | "AW" :: rest => stepAW id rest obs
     | _ => s!"{id} bad-case"
 
 end Rivaas.DriverC08
